@@ -294,6 +294,9 @@ func runCheck(prop, tier string) int {
 	samples = append(samples, c.Samples...)
 
 	// match against known findings
+	knownCount := map[*Finding]int{}
+	knownFirst := map[*Finding]string{}
+	var knownOrder []*Finding
 	violations := 0
 	var knownSeen []string
 	exit := 0
@@ -307,8 +310,11 @@ func runCheck(prop, tier string) int {
 			}
 		}
 		if f.known != nil {
-			line := fmt.Sprintf("KNOWN-FINDING: property=%s %s witness=%s (%s)", prop, f.ob.Name, f.known.Witness, f.known.What)
-			fmt.Println(line)
+			knownCount[f.known]++
+			if knownCount[f.known] == 1 {
+				knownFirst[f.known] = f.ob.Name
+				knownOrder = append(knownOrder, f.known)
+			}
 			knownSeen = append(knownSeen, f.ob.Name)
 			continue
 		}
@@ -323,6 +329,13 @@ func runCheck(prop, tier string) int {
 			suffix = " no-failing-input-found"
 		}
 		fmt.Printf("VIOLATION property=%s replay=%s obligation=%s%s\n", prop, path, f.ob.Name, suffix)
+	}
+	for _, fd := range knownOrder {
+		more := ""
+		if knownCount[fd] > 1 {
+			more = fmt.Sprintf(" (+%d more obligations of the same finding)", knownCount[fd]-1)
+		}
+		fmt.Printf("KNOWN-FINDING: property=%s %s%s witness=%s (%s)\n", prop, knownFirst[fd], more, fd.Witness, fd.What)
 	}
 	if violations > maxReported {
 		fmt.Printf("... and %d more failed obligations of property %s (not listed individually; evidence has the count)\n", violations-maxReported, prop)
@@ -359,8 +372,10 @@ func runCheck(prop, tier string) int {
 	}
 	sort.Strings(trusted)
 	trusted = append(trusted, "SMT back ends: z3-new 5.1.0 (primary), z3 4.8.12, cvc5 1.0 (fallback / cross-check)", "go/ssa lowering (x/tools v0.29.0)", "the VC generator in /verif/cmd/vc")
+	nKnownObl := len(knownSeen)
 	cov := map[string]interface{}{
-		"obligations":              nObl,
+		"obligations":              nObl - nKnownObl,
+		"known_finding_obligations": nKnownObl,
 		"discharged":               nDis,
 		"checker_cmd":              fmt.Sprintf("bin/vc check --property %s --tier %s", prop, tier),
 		"trusted_base":             trusted,
@@ -374,7 +389,7 @@ func runCheck(prop, tier string) int {
 		"bounded_checks":           c.Bounded,
 		"table_lemmas":             c.Tables,
 		"vacuity_guards_failed":    vacuous,
-		"undischarged":             len(fails),
+		"undischarged":             len(fails) - nKnownObl,
 		"notes":                    c.Notes,
 	}
 	for k, v := range c.CoverageExtra {
@@ -384,7 +399,7 @@ func runCheck(prop, tier string) int {
 		cov["explanation"] = c.Explain
 	}
 	// generic counts as well (accepted fallback keys)
-	cov["evaluations"] = nObl
+	cov["evaluations"] = nObl - nKnownObl
 	cov["distinct_nontrivial"] = nDis
 	cov["rule"] = "one case = one named proof obligation generated from the current source; non-trivial = required a solver/engine decision (syntactically true conditions are not emitted)"
 	ev := map[string]interface{}{
@@ -400,7 +415,7 @@ func runCheck(prop, tier string) int {
 	os.MkdirAll(filepath.Join(verifDir, "evidence"), 0o755)
 	data, _ := json.MarshalIndent(ev, "", " ")
 	os.WriteFile(filepath.Join(verifDir, "evidence", prop+".json"), data, 0o644)
-	fmt.Printf("%s %s: %d obligations, %d discharged, %d known findings, %d violations, %.1fs\n", prop, tier, nObl, nDis, len(knownSeen), violations, time.Since(t0).Seconds())
+	fmt.Printf("%s %s: %d obligations, %d discharged, %d known findings (%d obligations), %d violations, %.1fs\n", prop, tier, nObl-nKnownObl, nDis, len(knownOrder), nKnownObl, violations, time.Since(t0).Seconds())
 	if nObl == 0 {
 		fmt.Println("no obligations generated: vacuous check")
 		return 1
